@@ -48,7 +48,26 @@ pub struct JobResult {
     pub body: Body,
 }
 
+static BASE_CORE: std::sync::atomic::AtomicUsize = std::sync::atomic::AtomicUsize::new(usize::MAX);
+
+/// affinity mask of `n` CPUs starting at this process' base core (no-op before pinning)
+pub fn set_cpus(n: usize) {
+    let base = BASE_CORE.load(std::sync::atomic::Ordering::SeqCst);
+    if base == usize::MAX {
+        return;
+    }
+    unsafe {
+        let mut set: libc::cpu_set_t = std::mem::zeroed();
+        let ncpu = libc::sysconf(libc::_SC_NPROCESSORS_ONLN).max(1) as usize;
+        for k in 0..n.min(ncpu) {
+            libc::CPU_SET((base + k) % ncpu, &mut set);
+        }
+        libc::sched_setaffinity(0, std::mem::size_of::<libc::cpu_set_t>(), &set);
+    }
+}
+
 pub fn pin_to_core(core: usize) {
+    BASE_CORE.store(core, std::sync::atomic::Ordering::SeqCst);
     unsafe {
         let mut set: libc::cpu_set_t = std::mem::zeroed();
         let ncpu = libc::sysconf(libc::_SC_NPROCESSORS_ONLN).max(1) as usize;
@@ -58,6 +77,7 @@ pub fn pin_to_core(core: usize) {
 }
 
 pub fn unpin() {
+    BASE_CORE.store(usize::MAX, std::sync::atomic::Ordering::SeqCst);
     unsafe {
         let mut set: libc::cpu_set_t = std::mem::zeroed();
         let ncpu = libc::sysconf(libc::_SC_NPROCESSORS_ONLN).max(1) as usize;
